@@ -9,6 +9,6 @@ printf '{"Replace": {"/repo/%s/zz_bounded_%s": "%s"}}\n' "$pkg" "$(basename $fil
 out=$(cd /repo && go test -overlay $ov -vet=off -count=1 -timeout $to -run "$run" -v ./$pkg/ 2>&1)
 rc=$?
 rm -f $ov
-echo "$out" | grep "^BOUNDED " || true
+echo "$out" | grep "^BOUNDED \|^KNOWN-FINDING" || true
 if [ $rc -ne 0 ]; then echo "$out" | tail -40; fi
 exit $rc
